@@ -154,11 +154,12 @@ class _Url:
 
 
 class _Req:
-    def __init__(self, method, params):
-        self.method = method; self.rel_url = _Url(params); self._params = params
+    """a request carries BOTH a URL query and (for POST) a form body; they are different dictionaries"""
+    def __init__(self, method, query, form=None):
+        self.method = method; self.rel_url = _Url(query); self._form = {} if form is None else form
 
     async def post(self):
-        return self._params
+        return self._form
 
 
 _saved = {}
@@ -226,7 +227,9 @@ def routes(ng: int, npost: int, r1: int, m1: int, r2: int, m2: int, bad: int, re
                 continue                                # unregistered path: nothing to call (the router decides; outside)
             hid = r if m == 0 else 10 + r
             n0 = len(LOG)
-            kind, resp = step(table[route](_Req("GET" if m == 0 else "POST", dict(prm))))
+            # GET: parameters in the query.  POST: parameters in the form, and ALSO an unrelated query string on the URL
+            req = _Req("GET", dict(prm)) if m == 0 else _Req("POST", {"tok": "from-the-url"}, dict(prm))
+            kind, resp = step(table[route](req))
             if kind != 'ret':
                 return verdict(False)                   # the closure itself never raises
             want_tag = hid
@@ -262,7 +265,8 @@ def routes(ng: int, npost: int, r1: int, m1: int, r2: int, m2: int, bad: int, re
 
 # ------------------------------------------------------------------------------------------------ websocket messages
 MSGS = ['1', '"text"', '[1, 2, [3]]', '{"k": [1, "v"], "n": null}', '2.5', 'true',
-        '0', '""', '[]', '{}', 'false', '0.0', 'null']          # every JSON kind, including the values that are falsy in Python
+        '0', '""', '[]', '{}', 'false', '0.0', 'null',
+        '"1"', '"null"', '"[1,2]"', '"true"']           # strings whose text is itself JSON stay strings          # every JSON kind, including the values that are falsy in Python
 
 
 class _Closed(Exception):
